@@ -150,13 +150,27 @@ fn c12_faults_surface_as_err() {
     let shared = keyset(0, 90, &mut rng);
     let f0 = write_file(&base, &values_for(&shared, &mut rng, 0)); let f1 = write_file(&Cfg { levels: 0, ..base.clone() }, &values_for(&shared, &mut rng, 0));
     #[derive(Clone, Copy)] struct First; impl MergeFunction for First { type Error = std::convert::Infallible; fn merge<'a>(&self, _k: &[u8], v: &[Cow<'a, [u8]>]) -> Result<Cow<'a, [u8]>, Self::Error> { Ok(v[0].clone()) } }
-    for which in 0..2 { for k in 1..=220 {
+    struct Counted { inner: SchedSource, calls: Rc<Cell<usize>> }
+    impl std::io::Read for Counted { fn read(&mut self, b: &mut [u8]) -> std::io::Result<usize> { let r = self.inner.read(b); self.calls.set(self.inner.calls); r } }
+    impl std::io::Seek for Counted { fn seek(&mut self, p: std::io::SeekFrom) -> std::io::Result<u64> { let r = self.inner.seek(p); self.calls.set(self.inner.calls); r } }
+    let run_merge = |fail: Option<(usize, usize)>| -> (std::thread::Result<Result<usize, String>>, [usize; 2]) {
+        let c = [Rc::new(Cell::new(0usize)), Rc::new(Cell::new(0usize))];
         let mut s0 = SchedSource::new(f0.clone(), 1, usize::MAX, false); let mut s1 = SchedSource::new(f1.clone(), 1, usize::MAX, false);
-        if which == 0 { s0.fail_at = Some(k) } else { s1.fail_at = Some(k) };
+        if let Some((which, k)) = fail { if which == 0 { s0.fail_at = Some(k) } else { s1.fail_at = Some(k) } }
+        let (s0, s1) = (Counted { inner: s0, calls: c[0].clone() }, Counted { inner: s1, calls: c[1].clone() });
         let r = catch_unwind(AssertUnwindSafe(|| -> Result<usize, String> {
             let mut b = Merger::builder(First); b.push(Reader::new(s0).map_err(|e| e.to_string())?.into_cursor().map_err(|e| e.to_string())?); b.push(Reader::new(s1).map_err(|e| e.to_string())?.into_cursor().map_err(|e| e.to_string())?);
             let mut it = b.build().into_stream_merger_iter().map_err(|e| e.to_string())?; let mut n = 0; while let Some(_) = it.next().map_err(|e| e.to_string())? { n += 1; } Ok(n) }));
-        match r { Err(_) => cex(format!("C12 merger panicked when source {} failed at its call #{}", which, k)), Ok(Ok(n)) => if n != shared.len() { cex(format!("C12 merger reported success with {} of {} keys although source {} failed at its call #{}", n, shared.len(), which, k)); }, Ok(Err(e)) => if !e.contains("injected") { cex(format!("C12 merger error does not carry the failure: {}", e)); } }
+        (r, [c[0].get(), c[1].get()])
+    };
+    let (clean, totals) = run_merge(None);
+    if !matches!(clean, Ok(Ok(n)) if n == shared.len()) { cex(format!("C12 clean two-source merge did not yield the {} keys: {:?}", shared.len(), clean.map_err(|_| ()))); }
+    // the I/O sequence of each source is deterministic up to the failing call, so every k <= its clean total does fire
+    for which in 0..2 { for k in 1..=totals[which] {
+        let (r, _) = run_merge(Some((which, k)));
+        match r { Err(_) => cex(format!("C12 merger panicked when source {} failed at its call #{} of {}", which, k, totals[which])),
+            Ok(Ok(n)) => cex(format!("C12 merger reported success ({} keys) although source {} failed at its call #{} of {}", n, which, k, totals[which])),
+            Ok(Err(e)) => if !e.contains("injected") { cex(format!("C12 merger error does not carry the failure: {}", e)); } }
         merge_faults += 1; } }
     let _ = std::panic::take_hook();
     stat("sink_fault_points", write_faults); stat("source_fault_points", read_faults); stat("merge_create_chunk_fault_points", merge_faults);
